@@ -124,4 +124,6 @@ def OP_NEG(
 def OP_PERCENT(
         left: func_xltypes.XlNumber
 ) -> func_xltypes.XlNumber:
-    return left * 0.01
+    # Divide (correctly rounded) as the tokenizer does for a percent
+    # literal: 41 * 0.01 is 0.41000000000000003, 41% is 0.41.
+    return left / 100
